@@ -658,7 +658,7 @@ func (x *EvalCtx) quant(n *EQuant) Val {
 var strSpecFuncs = map[string]string{
 	"blen": sInt, "nl": sInt, "vlen": sInt,
 	"clean": sBool, "wf": sBool, "sgr": sBool, "digits": sBool, "noNL": sBool, "noCTL": sBool,
-	"sgrs": sBool, "p1": sBool, "sgrch": sBool, "mxl": sInt, "fstl": sInt, "lstl": sInt, "mmin": sInt, "nsc": sInt,
+	"sgrs": sBool, "p1": sBool, "sgrch": sBool, "mxl": sInt, "fstl": sInt, "lstl": sInt, "mmin": sInt, "nel": sInt, "nsc": sInt,
 }
 
 func (x *EvalCtx) callExpr(n *ECall) Val {
